@@ -314,6 +314,10 @@ CallsDeep == {c \in CallsQuick : c.op # "tostr" /\ (c.op = "format" => Len(c.tpl
              \cup {Call("get", p, FALSE, <<>>, "none", Empty, NoOpts) : p \in Seqs(K, 4, 4)}
              \cup DeleteCalls(Seqs(K, 4, 4)) \cup UpdateCalls({<<K1, K1, K1>>, <<K1, K1, K2>>, <<K1, K1, K1, K2>>})
 
+\* three keys (design level only)
+CallsWide == {c \in QueryCalls(3, 1) : c.op # "tostr"} \cup DeleteCalls(Seqs(K, 1, 3))
+             \cup UpdateCalls(Seqs(K, 1, 2)) \cup FuwCalls(Seqs(K, 1, 2))
+
 (***************************************************************************)
 (* Export (S2C): the call, the context, the outcome; rend = the tokens of  *)
 (* the rendered template (for "$rendered")                                 *)
